@@ -570,3 +570,47 @@ package stack
 //@ lemma [C12] genReflexive(a []Arg)
 //@   ensures GenVals(a, a)
 //@   induction height(a)
+
+// Signature-level lifting of the lemma layer.
+//@ pred noinline WFCalls(c []Call) = forall i :: 0 <= i && i < len(c) ==> WFVals(c[i].Args.Values)
+//@ pred noinline NoArgs(c []Call) = forall i :: 0 <= i && i < len(c) ==> len(c[i].Args.Values) == 0 && !c[i].Args.Elided
+//@ pred WFSig(s *Signature) = WFCalls(s.Stack.Calls) && NoArgs(s.CreatedBy.Calls)
+//@ pred GenCall(k *Call, m *Call) = k.Line == m.Line && k.Func.Complete == m.Func.Complete && k.RemoteSrcPath == m.RemoteSrcPath && k.Args.Elided == m.Args.Elided && GenVals(k.Args.Values, m.Args.Values)
+//@ pred noinline GenCalls(k []Call, m []Call) = len(k) == len(m) && forall i :: 0 <= i && i < len(k) ==> GenCall(&k[i], &m[i])
+//@ pred noinline GenSig(k *Signature, m *Signature) = k.State == m.State && GenCalls(k.CreatedBy.Calls, m.CreatedBy.Calls) && k.CreatedBy.Elided == m.CreatedBy.Elided && GenCalls(k.Stack.Calls, m.Stack.Calls) && k.Stack.Elided == m.Stack.Elided && k.SleepMin <= m.SleepMin && k.SleepMax >= m.SleepMax && (m.Locked ==> k.Locked)
+//@ pred noinline MergedSig(k *Signature, s *Signature, r *Signature) = k.State == s.State && sameslice(k.CreatedBy.Calls, s.CreatedBy.Calls) && k.CreatedBy.Elided == s.CreatedBy.Elided && MergedCalls(k.Stack.Calls, s.Stack.Calls, r.Stack.Calls) && k.Stack.Elided == s.Stack.Elided && (k.Locked <==> (s.Locked || r.Locked)) && k.SleepMin == (r.SleepMin < s.SleepMin ? r.SleepMin : s.SleepMin) && k.SleepMax == (r.SleepMax > s.SleepMax ? r.SleepMax : s.SleepMax)
+
+//@ lemma [C05] sigSimReflexive(s *Signature, l Similarity)
+//@   requires LevelOK(l)
+//@   ensures SimSig(s, s, l)
+//@   uses simReflexive
+//@ lemma [C05] sigSimSymmetric(s *Signature, r *Signature, l Similarity)
+//@   requires SimSig(s, r, l)
+//@   ensures SimSig(r, s, l)
+//@   uses simSymmetric
+//@ lemma [C05] sigSimTransitive(a *Signature, b *Signature, c *Signature, l Similarity)
+//@   requires SimSig(a, b, l) && SimSig(b, c, l)
+//@   ensures SimSig(a, c, l)
+//@   uses simTransitive
+//@ lemma [C05] sigRefinement(s *Signature, r *Signature)
+//@   ensures (SimSig(s, r, ExactFlags) ==> SimSig(s, r, ExactLines)) && (SimSig(s, r, ExactLines) ==> SimSig(s, r, AnyPointer)) && (SimSig(s, r, AnyPointer) ==> SimSig(s, r, AnyValue))
+//@   uses simRefinesExactLines, simRefinesAnyPointer, simRefinesToAnyValue
+//@ lemma [C05 C12] sigMergedKeepsClass(k *Signature, s *Signature, r *Signature, c *Signature, l Similarity)
+//@   requires LevelOK(l) && WFSig(s) && WFSig(r) && SimSig(s, r, l) && MergedSig(k, s, r)
+//@   ensures (SimSig(k, c, l) <==> SimSig(s, c, l)) && (SimSig(c, k, l) <==> SimSig(c, s, l))
+//@   uses mergedKeepsClass, simSymmetric
+//@ lemma [C05 C12] sigMergedKeepsWF(k *Signature, s *Signature, r *Signature)
+//@   requires WFSig(s) && MergedSig(k, s, r)
+//@   ensures WFSig(k)
+//@   uses mergedKeepsWF
+//@ lemma [C12] sigMergedGeneralises(k *Signature, s *Signature, r *Signature)
+//@   requires SimSig(s, r, AnyValue) && NoArgs(s.CreatedBy.Calls) && NoArgs(r.CreatedBy.Calls) && MergedSig(k, s, r)
+//@   ensures GenSig(k, s) && GenSig(k, r)
+//@   uses mergedGeneralises
+//@ lemma [C12] sigGenMonotone(k2 *Signature, k *Signature, r *Signature, m *Signature)
+//@   requires GenSig(k, m) && MergedSig(k2, k, r)
+//@   ensures GenSig(k2, m)
+//@   uses genMonotone
+//@ lemma [C12] sigGenReflexive(s *Signature)
+//@   ensures GenSig(s, s)
+//@   uses genReflexive
